@@ -177,10 +177,13 @@ func stubRename(oldp, newp string) error {
 	return nil
 }
 
-type fsInfo struct{ name string }
+type fsInfo struct {
+	name string
+	size int64
+}
 
 func (i fsInfo) Name() string               { return i.name }
-func (i fsInfo) Size() int64                { return 0 }
+func (i fsInfo) Size() int64                { return i.size }
 func (i fsInfo) Mode() fs.FileMode          { return 0o644 }
 func (i fsInfo) ModTime() time.Time         { return time.Time{} }
 func (i fsInfo) IsDir() bool                { return false }
@@ -190,10 +193,11 @@ func (i fsInfo) Info() (fs.FileInfo, error) { return i, nil }
 
 //verif:stub os.Stat
 func stubStat(name string) (os.FileInfo, error) {
-	if _, ok := fsm.files[name]; !ok {
+	f, ok := fsm.files[name]
+	if !ok {
 		return nil, fsNotExist("stat", name)
 	}
-	return fsInfo{filepath.Base(name)}, nil
+	return fsInfo{filepath.Base(name), int64(len(f.data))}, nil
 }
 
 //verif:stub os.ReadDir
@@ -212,7 +216,7 @@ func stubReadDir(dir string) ([]os.DirEntry, error) {
 	}
 	var out []os.DirEntry
 	for _, n := range names {
-		out = append(out, fsInfo{n})
+		out = append(out, fsInfo{name: n})
 	}
 	return out, nil
 }
